@@ -22,6 +22,7 @@ BUDGET = {
     "quick": {"examples": 200, "shards": 4, "case_timeout": 60, "wall_budget": 240},
     "thorough": {"examples": 5000, "shards": 16, "case_timeout": 120, "wall_budget": 1800},
 }
+FUZZ = {"thorough": dict(runs=20000, procs=8, wall_s=600)}
 TOLERANCES = {"state_vs_plain": "1e3*eps*scale", "vs_independent_augmentation": "1e-10*scale",
               "additivity": "1e-12*scale", "exact_half_c2": "1e-10 relative", "nonneg": ">= -1e-15"}
 
